@@ -61,7 +61,9 @@ func (s *ScanMethod) ProcessPacketData(data []byte, _ *gopacket.CaptureInfo) err
 	if err := s.parser.DecodeLayers(data, &s.rcvDecoded); err != nil {
 		return err
 	}
-	if len(s.rcvDecoded) != 2 {
+	// exactly Ethernet and ARP of this very frame: the decoders are reused, after e.g.
+	// Ethernet in Ethernet (2 layers as well) rcvARP still holds the previous frame
+	if len(s.rcvDecoded) != 2 || s.rcvDecoded[0] != layers.LayerTypeEthernet || s.rcvDecoded[1] != layers.LayerTypeARP {
 		return nil
 	}
 	// only Ethernet/IPv4 ARP has a 6-byte hardware and a 4-byte protocol address to report
